@@ -283,6 +283,8 @@ def _run_corpus(run, found, model_broken):
             model_broken.append((where, {"leg": "dump-opcodes", "detail": r["dump"]}))
         if r["iso_load_p"] is not True:
             model_broken.append((where, {"leg": "load-iso-original", "detail": r["iso_load_p"]}))
+        if r.get("all_visited") is not True:
+            model_broken.append((where, {"leg": "redump-proviso-all-cells-visited", "detail": r.get("all_visited")}))
         if canon_p != loaded:
             model_broken.append((where, {"leg": "canonical-numbering-of-load-differs", "detail": "canon(heap) != load(ops)"}))
         rec = {"nokeycycle": r["nokeycycle"], "unready": r["unready"], "real_load": raised or "ok"}
